@@ -17,6 +17,7 @@ import (
 	"go.nanomsg.org/mangos/v3/protocol/xpush"
 	_ "go.nanomsg.org/mangos/v3/transport/inproc"
 	"go.nanomsg.org/mangos/v3/vh/c14"
+	"go.nanomsg.org/mangos/v3/vh/c16"
 	"go.nanomsg.org/mangos/v3/vh/c18"
 	"go.nanomsg.org/mangos/v3/vh/kit"
 	"go.nanomsg.org/mangos/v3/vh/vt"
@@ -63,6 +64,8 @@ func init() {
 			&vexplore.Scenario{Name: "pair-sched-two-connections-at-once", Mode: "sched", Bound: b, Reset: kit.ResetGlobals, Body: func() { pairTwoAtOnce(pair.NewSocket, nil) }},
 			&vexplore.Scenario{Name: "pair1-sched-two-connections-at-once", Mode: "sched", Bound: b, Reset: kit.ResetGlobals, Body: func() { pairTwoAtOnce(pair1.NewSocket, []byte{0, 0, 0, 1}) }},
 			&vexplore.Scenario{Name: "fail-no-peers-with-busy-peers", Mode: "enum", Reset: kit.ResetGlobals, Body: c18.FailNoPeers, NeedCounters: []string{"one-of-two-peers-leaves"}},
+			&vexplore.Scenario{Name: "pair-push-pull-every-length-over-stream-pipes", Mode: "enum", Reset: kit.ResetGlobals, Body: func() { c16.EveryLength(map[bool]int{false: 1200, true: 9000}[tier == "thorough"]) },
+				NeedCounters: []string{"every-length-written-exact", "every-length-received-exact"}},
 			&vexplore.Scenario{Name: "large-bodies-byte-api-retained", Mode: "enum", Reset: kit.ResetGlobals, Body: largeBodies, NeedCounters: []string{"large-bodies-intact"}},
 		)
 		for _, k := range []struct {
